@@ -112,7 +112,7 @@ impl Compiler {
     let mut candidates = Vec::new();
 
     if let Some(path) = path {
-      let full = parent.join(path);
+      let full = parent.join(path).lexiclean();
 
       if full.is_file() {
         return Ok(Some(full));
